@@ -7,7 +7,7 @@
 //
 // Protocol (one line per op, numbers as exact tokens):
 //   C05 upd <route> <exact> <sosa> S O | T_a (S*S, s-major) | Ob_a (S*O, s1-major) | R_a (S*S) | b (S)
-//        | dense <block> | sparse <block> | generic <block> | usereigen <block> | pob P(o|b,a) for o = 0..O-1
+//        | dense <block> | sparse <block> | generic <block> | usereigen <block> | usersparse <block> | pob P(o|b,a) for o = 0..O-1
 //     route = tab  : dense/sparse built by the table constructors (sparse drops sub-threshold entries)
 //             conv : dense = Model(UserModel), sparse = SparseModel(that dense model)  (converting constructors)
 //             raw  : dense/sparse hold the supplied Eigen matrices as they are: NO_CHECK constructors (sparse matrices with explicit
@@ -82,6 +82,32 @@ struct UserEigenModel : UserModel {
     const Eigen::MatrixXd & getObservationFunction(size_t a) const { return Om[a]; }
     const Eigen::MatrixXd & getRewardFunction() const { return Rm; }
 };
+// A user-defined model exposing column-major SPARSE Eigen matrices (the library's own sparse matrices are row-major):
+// the Eigen branch instantiated with yet another set of kernels (sparse inner vectors are columns here, `col(o)` is a
+// direct inner-vector view, `b^T * T` runs over columns).  Only non-zero entries are stored.
+struct UserSparseModel : UserModel {
+    using SpC = Eigen::SparseMatrix<double, Eigen::ColMajor>;
+    std::vector<SpC> Tm, Om;
+    SpC Rm;
+    explicit UserSparseModel(const Tables * tt) : UserModel{tt}, Tm(tt->A, SpC(tt->S, tt->S)), Om(tt->A, SpC(tt->S, tt->O)), Rm(tt->S, tt->A) {
+        Eigen::MatrixXd R = Eigen::MatrixXd::Zero(t->S, t->A);
+        for (size_t a = 0; a < t->A; ++a) {
+            for (size_t s1 = 0; s1 < t->S; ++s1) for (size_t s = 0; s < t->S; ++s) {
+                if (t->T[s][a][s1] != 0.0) Tm[a].insert(s, s1) = t->T[s][a][s1];
+                R(s, a) += t->R[s][a][s1] * t->T[s][a][s1];
+            }
+            for (size_t o = 0; o < t->O; ++o) for (size_t s = 0; s < t->S; ++s) if (t->Ob[s][a][o] != 0.0) Om[a].insert(s, o) = t->Ob[s][a][o];
+            Tm[a].makeCompressed(); Om[a].makeCompressed();
+        }
+        // (row-by-row accumulation in s1 order, like UserEigenModel / MDP::Model::setRewardFunction)
+        for (size_t a = 0; a < t->A; ++a) for (size_t s = 0; s < t->S; ++s) if (R(s, a) != 0.0) Rm.insert(s, a) = R(s, a);
+        Rm.makeCompressed();
+    }
+    const SpC & getTransitionFunction(size_t a) const { return Tm[a]; }
+    const SpC & getObservationFunction(size_t a) const { return Om[a]; }
+    const SpC & getRewardFunction() const { return Rm; }
+};
+static_assert(PO::IsModelEigen<UserSparseModel>, "UserSparseModel must take the Eigen branch");
 static_assert(PO::IsModelEigen<UserEigenModel>, "UserEigenModel must take the Eigen branch");
 static_assert(PO::IsModel<UserModel>, "UserModel must satisfy POMDP::IsModel");
 static_assert(!PO::IsModelEigen<UserModel>, "UserModel must take the generic branch");
@@ -223,6 +249,16 @@ static void perturb(Rng & rng, Tables & t) {
 static AI::Vector makeBelief(Rng & rng, size_t S, Stream st, int shape) {
     AI::Vector b(S); b.setZero();
     if (shape == 0 || S == 1) { b[rng.below(S)] = 1.0; return b; }                     // corner
+    if (shape == 3) {
+        // a belief with entries far below every tolerance of the library (2^-21 < 1e-6, 2^-30): they still count
+        std::vector<double> r = dyadicRow(rng, S, 8, ROW_SPARSE);
+        size_t big = 0; for (size_t j = 1; j < S; ++j) if (r[j] > r[big]) big = j;
+        size_t j = (big + 1 + rng.below(S - 1)) % S;
+        const double e = rng.coin() ? 0x1p-21 : 0x1p-30;
+        r[big] += r[j] - e; r[j] = e;
+        for (size_t s = 0; s < S; ++s) b[s] = r[s];
+        return b;
+    }
     std::vector<double> r;
     if (st == ST_UGLY) r = uglyRow(rng, S);
     else r = dyadicRow(rng, S, 8, shape == 1 ? ROW_SPARSE : ROW_DENSE);                // face / interior
@@ -310,6 +346,7 @@ struct Models {
     std::unique_ptr<SparseM> sparse, sparseFromDense;
     UserModel user;
     std::unique_ptr<UserEigenModel> userEigen;
+    std::unique_ptr<UserSparseModel> userSparse;
     explicit Models(Tables tt, Route rt = RT_TABLE, int zeros = 0, bool compress = true) : t(std::move(tt)), route(rt) {
         if (route == RT_TABLE) {
         dense.reset(new DenseM(t.O, t.Ob, t.S, t.A, t.T, t.R, t.discount));
@@ -337,6 +374,7 @@ struct Models {
         }
         user.t = &t;
         userEigen.reset(new UserEigenModel(&t));
+        userSparse.reset(new UserSparseModel(&t));
         if (route != RT_TABLE) return;
         // the converting constructors: user-defined -> dense -> sparse
         denseFromUser.reset(new DenseM(user));
@@ -365,6 +403,7 @@ static void emitUpd(const Models & M, const AI::Vector & b, size_t a, bool exact
     l << "|" << "sparse";  emitBlock(l, spm, "sparse", t, b, a, withSosa);
     l << "|" << "generic"; emitBlock(l, M.user, "generic", t, b, a, withSosa);
     l << "|" << "usereigen"; emitBlock(l, *M.userEigen, "usereigen", t, b, a, withSosa);
+    l << "|" << "usersparse"; emitBlock(l, *M.userSparse, "usersparse", t, b, a, withSosa);
     // the library's own P(o | b, a) (note the argument order: belief, observation, action)
     l << "|" << "pob";
     for (size_t o = 0; o < t.O; ++o) l << spm.getObservationProbability(b, o, a);
@@ -413,6 +452,20 @@ static void emitAcceptSetters(const Tables & t, int zeros, bool compress) {
     { Line l; l << "C05" << "accept" << "denseM" << t.S << t.A << t.O << "|"; putTables(l, t); l << "|" << okD; l.emit(); }
     { Line l; l << "C05" << "accept" << "sparseM" << t.S << t.A << t.O << "|"; putTables(l, t); l << "|" << okS; l.emit(); }
     std::printf("#stat denseM_setters_%s 1\n#stat sparseM_setters_%s 1\n", okD ? "accepted" : "rejected", okS ? "accepted" : "rejected");
+}
+
+// … and for the converting constructors Model(UserModel) and SparseModel(that Model)
+static void emitAcceptConv(const Tables & t) {
+    UserModel u; u.t = &t;
+    std::unique_ptr<DenseM> d;
+    try { d.reset(new DenseM(u)); } catch (const std::invalid_argument &) {}
+    { Line l; l << "C05" << "accept" << "denseC" << t.S << t.A << t.O << "|"; putTables(l, t); l << "|" << (bool)d; l.emit(); }
+    std::printf("#stat denseC_conv_%s 1\n", d ? "accepted" : "rejected");
+    if (!d) return;
+    bool okS = true;
+    try { SparseM sp(*d); } catch (const std::invalid_argument &) { okS = false; }
+    { Line l; l << "C05" << "accept" << "sparseC" << t.S << t.A << t.O << "|"; putTables(l, t); l << "|" << okS; l.emit(); }
+    std::printf("#stat sparseC_conv_%s 1\n", okS ? "accepted" : "rejected");
 }
 
 template <class M>
@@ -581,10 +634,10 @@ static void runFixed(long idx) {
         // negative entry balanced so that the row still sums to one, and tiny successors whose total mass is inside / outside
         // the tolerance once the sparse container has dropped them
         auto base = [] { Tables t = fixedAsym(); return t; };
-        { Tables t = base(); t.T[0][0][0] += 0x1p-20; emitAccept<DenseM>("dense", t); emitAccept<SparseM>("sparse", t); emitAcceptSetters(t, 2, false); }
-        { Tables t = base(); t.T[0][0][0] += 0x1p-19; emitAccept<DenseM>("dense", t); emitAccept<SparseM>("sparse", t); emitAcceptSetters(t, 2, false); }
-        { Tables t = base(); t.Ob[1][0][0] = -0x1p-21; t.Ob[1][0][1] = 1.0 + 0x1p-21; emitAccept<DenseM>("dense", t); emitAccept<SparseM>("sparse", t); emitAcceptSetters(t, 2, false); }
-        { Tables t = base(); t.T[1][0][0] = -0.25; t.T[1][0][1] = 0.5; emitAccept<DenseM>("dense", t); emitAccept<SparseM>("sparse", t); emitAcceptSetters(t, 2, false); }
+        { Tables t = base(); t.T[0][0][0] += 0x1p-20; emitAccept<DenseM>("dense", t); emitAccept<SparseM>("sparse", t); emitAcceptSetters(t, 2, false); emitAcceptConv(t); }
+        { Tables t = base(); t.T[0][0][0] += 0x1p-19; emitAccept<DenseM>("dense", t); emitAccept<SparseM>("sparse", t); emitAcceptSetters(t, 2, false); emitAcceptConv(t); }
+        { Tables t = base(); t.Ob[1][0][0] = -0x1p-21; t.Ob[1][0][1] = 1.0 + 0x1p-21; emitAccept<DenseM>("dense", t); emitAccept<SparseM>("sparse", t); emitAcceptSetters(t, 2, false); emitAcceptConv(t); }
+        { Tables t = base(); t.T[1][0][0] = -0.25; t.T[1][0][1] = 0.5; emitAccept<DenseM>("dense", t); emitAccept<SparseM>("sparse", t); emitAcceptSetters(t, 2, false); emitAcceptConv(t); }
         for (int cnt : {2, 3, 7}) {
             Tables t = defaultTables(8, 1, 2);
             for (int j = 1; j <= cnt; ++j) { t.T[0][0][j] = 0x1p-21; t.T[0][0][0] -= 0x1p-21; }
@@ -649,20 +702,23 @@ static void verif_case_inner(Rng & rng, long idx, const std::string & tier) {
         perturb(rng, tt);
         const bool okD = emitAccept<DenseM>("dense", tt), okS = emitAccept<SparseM>("sparse", tt);
         emitAcceptSetters(tt, (int)rng.below(3), rng.coin());
+        emitAcceptConv(tt);
         std::printf("#stat stream_near 1\n");
         if (!(okD && okS)) return;
     }
+    if (st == ST_UGLY || st == ST_TINY) emitAcceptConv(tt);
     const int zeros = (int)rng.below(3); const bool compress = rng.coin();
     Models M(std::move(tt), rt, zeros, compress);
     const bool exact = st != ST_UGLY && st != ST_NEAR;
     std::printf("#stat stream_%s 1\n#stat S_%zu 1\n#stat O_%zu 1\n", st == ST_DYADIC ? "dyadic" : st == ST_UGLY ? "ugly" : st == ST_TINY ? "tiny" : "near_accepted", S, O);
     if (S <= 8) emitTabs(M);
     for (int k = 0; k < 3; ++k) {
-        int shape = (int)rng.below(3);
+        int shape = (int)rng.below(4);
+        if (shape == 3 && st == ST_UGLY) shape = 2;
         AI::Vector b = makeBelief(rng, S, st, shape);
         size_t a = rng.below(A);
-        std::printf("#stat belief_%s 1\n", shape == 0 ? "corner" : shape == 1 ? "face" : "interior");
-        emitUpd(M, b, a, exact, k == 2 && rt == RT_TABLE);       // the third belief goes through the converted models
+        std::printf("#stat belief_%s 1\n", shape == 0 ? "corner" : shape == 1 ? "face" : shape == 2 ? "interior" : "tiny_entries");
+        emitUpd(M, b, a, exact && !(shape == 3 && S > 1), k == 2 && rt == RT_TABLE);       // the third belief goes through the converted models
     }
     // the pointer overloads called in place, one (b, a, o) per case
     if (!thorough || idx % 3 == 0) {
@@ -678,6 +734,7 @@ static void verif_case_inner(Rng & rng, long idx, const std::string & tier) {
     emitHist(*M.sparse, rt == RT_TABLE ? "sparse" : "sparseraw", M.t, b0, r2, n, hexact);
     emitHist(M.user, "generic", M.t, b0, r3, n, hexact);
     emitHist(*M.userEigen, "usereigen", M.t, b0, r4, n, hexact);
+    { Rng r5 = rng; emitHist(*M.userSparse, "usersparse", M.t, b0, r5, n, hexact); }
 }
 
 void verif::verif_case(Rng & rng, long idx, const std::string & tier) {
